@@ -15,6 +15,21 @@ SPECIAL = [
 ]
 
 
+def with_budget(r, b):
+    r.budget = b
+    return r
+
+
+# the limit reached exactly: with MaxFailRate = 1 every recipe that can succeed at all is within the limit ((1-p)^T <= 1), however
+# small p is — also when 1-p rounds to 1.0 (p < 1e-16): the comparison is "<=", not "<"
+BIG_ALPHABET = "".join(chr(0x4e00 + i) for i in range(1000))       # 1000 distinct three-byte characters
+AT_THE_LIMIT = [
+    with_budget(Recipe(7, allow_chars=BIG_ALPHABET, require_sets=list("abcdefg")), (1, 1, 1)),      # p = 7!/1007^7 ~ 5e-18: 1-p rounds to 1.0
+    with_budget(Recipe(7, allow_chars=BIG_ALPHABET, require_sets=list("abcdefg")), (3, 1, 1)),
+    with_budget(Recipe(12, require_sets=list("abcdefghijkl")), (7, 1, 1)),
+]
+
+
 def exact_acceptable(r, budget):
     """the decision as the property states it, in exact arithmetic; None if borderline (within 0.5% of the threshold)"""
     T, fn, fd = budget
@@ -27,6 +42,8 @@ def exact_acceptable(r, budget):
         return None
     q = 1 - p
     lim = Fraction(fn, fd)
+    if lim >= 1:
+        return True          # (1-p)^T <= 1 for every p in (0,1]: within the limit whatever the rounding
     # compare q^T with lim, with a guard band
     lq = math.log(float(q)) * T if q > 0 else float("-inf")
     ll = math.log(float(lim))
@@ -43,7 +60,7 @@ def correspondence(ctx):
                 "last permitted attempt succeeds; recipe family for SuccessProbability(). Non-trivial = distinct (recipe, budget, tape) that ends in an "
                 "error, exhausts or nearly exhausts the attempts, or has overlapping required sets.")
     rng = ctx.rng
-    recs = list(SPECIAL)
+    recs = list(SPECIAL) + list(AT_THE_LIMIT)
     n = 300 if ctx.tier == "quick" else 4000
     recs += [chargen.gen_recipe(rng) for _ in range(n)]
     ctx.gen_results = chargen.run_chargen_family(ctx, 0, recipes=recs)
